@@ -26,7 +26,11 @@ def check(ctx):
         'parameters; applying .convex_conj twice must give back the values '
         'of the functional (involution).  R3: proximal_convex_conj denotes '
         'the Moreau decomposition x - sigma * prox_{f/sigma}(x/sigma) (in '
-        'the weighted space), i.e. prox_{sigma f*}.',
+        'the weighted space), i.e. prox_{sigma f*}.  R4: conjugate pairing '
+        'table: norms and unit-ball indicators (Lp, group-L1, nuclear) are '
+        'conjugate to each other with the dual exponent p/(p-1) (1 <-> inf) '
+        'in both directions, for p in {1, 2, inf, 3, 3/2}; the Kullback-'
+        'Leibler pairs forward space and prior.',
         ['CPython ast', 'closed-form conjugate/proximal of a convex '
          'quadratic on the weighted line', 'operator/functional arithmetic '
          'means what the table says (C04)'],
